@@ -169,6 +169,47 @@ _c("C13",
    "Coq proof (congruence of spellings by mutual induction on derivations, parametric in the generated type table) + "
    "model/implementation correspondence in vm_compute")
 
+_c("C01",
+   "Coq theorems (Props/C01.v, closed under the global context) over the executable model of the validating entry points "
+   "(Struct/Instance.v construct/clone_with/cast_to/from_other, Struct/Entry.v: keyword construction, deserialization as construct on "
+   "the lifted document, from_other_class, shallow_clone_with_overrides, cast_to, wrapping, copy/deepcopy/pickle): vset soundness "
+   "for every declaration by structural induction (C01_vset_sound: an accepted stable value's stored normal form is accepted by the "
+   "documented rules docb, which are written independently of vset), construct soundness (required present, every stored value "
+   "conforms, no undeclared attribute unless allowed, hook accepts), every single entry point, and chains of ANY length by induction "
+   "(C01_chain_sound, C01_chain_deep_sound for nested instances); the unconditional field statement is refuted by the "
+   "normalisation-collision witness. Each step of generated chains of 1-4 real entry points is run on typedpy; the reified instance is "
+   "judged by the independent spec (inst_ok, deep_valid) and compared with the model's run_entry inside Coq.",
+   "Trusted: Coq kernel + vm_compute; Instance.v/Entry.v hand-written; copy/deepcopy/pickle value-preserving in the model (compared up to "
+   "==); deserialization pre-processing compared on flat documents only; StructureReference, date/time fields, constants not generated.",
+   "Coq proof (structural induction over declarations, induction over entry-point chains) + model/implementation correspondence in vm_compute")
+_c("C15",
+   "Coq theorems (Props/C15.v, closed under the global context) over a model of typedpy's process-wide tables (Global/History.v: "
+   "implicit-wrapper registry, class objects, memo tables, installed serializers, counter, defaults) whose key kinds are regenerated "
+   "from the AST on every run (Gen/Globals.v): a memo table whose key determines the function is unobservable under ANY history of "
+   "lookups/insertions (C15_cache_transparent, induction over the history; C15_generated_caches_safe re-checks today's key kinds), a "
+   "coarser key is observable (witness), and for every history without registry-key collision a class's behaviour equals that of the "
+   "class defined alone (C15_independent, invariant: every table entry is correct for its key); a name-keyed registry has a "
+   "constructed refuting history (C15_witness_registry). Each generated history is run in one process and every class's behaviour "
+   "fingerprint (construct, 5 serialization modes, 3 deserialization modes, trusted path, schema, str) is compared with the class "
+   "alone in a fresh interpreter; the model's verdict is compared inside Coq.",
+   "Trusted: Coq kernel + vm_compute; History.v hand-written, beh abstract; key-kind recogniser harness/genmods/globals_tables.py (fail "
+   "closed); harness/c15_worker.py; forked-child == fresh interpreter sampled each run. In-place edits of class attributes are not in the model.",
+   "Coq proof (cache transparency and independence by induction over histories, parametric in generated key kinds) + differential "
+   "against fresh interpreters and model correspondence in vm_compute")
+_c("C18",
+   "Coq theorems (Props/C18.v, closed under the global context): every raise site of typedpy/fields, structures.py and serialization.py is "
+   "regenerated as a message template on every run (Gen/Templates.v, 116 sites); the three regular expressions of errors.py are "
+   "transcribed as parsers with their exact character classes; for every generated template of a scalar / collection-of-scalar site "
+   "(finite forallb lifted), ALL identifier class and field names, ALL element suffixes and ALL value texts without newline, parsing "
+   "the rendered message yields the field path and a non-empty problem (C18_template_ok, induction over strings; all_templates_ok is "
+   "re-checked by the kernel against today's messages); collect-all reports exactly the invalid bound arguments, once each, in order; "
+   "fail-fast reports the first; the helper is total; the deserialization collect-all clause is characterised and refuted (F19). Real "
+   "str(exception), ErrorInfo, construction and deserialization outcomes are compared with the model inside Coq.",
+   "Trusted: Coq kernel + vm_compute; Render.v/Parse.v/Collect.v hand-written; template extractor harness/genmods/templates.py (fails "
+   "closed to Other); json encode/decode as oracle; ASCII identifiers.",
+   "Coq proof (parser/renderer round trip by induction over strings, parametric in generated message templates; induction over "
+   "bound arguments) + model/implementation correspondence in vm_compute")
+
 PENDING = {}
 
 def main():
